@@ -348,6 +348,10 @@ func runScenario(ctx context.Context, w *rec.Writer, r *rec.Rand, sq storage.Ope
 	}
 	w.Stat("models_accepted", 1)
 	w.Stat("shape_"+s.Shape, 1)
+	if os.Getenv("C05_DEBUG") != "" {
+		js, _ := json.Marshal(s)
+		fmt.Fprintf(os.Stderr, "SCENARIO %s\n%s\n", js, s.String())
+	}
 	in := scen.NewIntern()
 	model := in.Model(s)
 	conds := in.Conds(s)
